@@ -186,6 +186,31 @@ func VerifGradeGlue() {
 		for i := 0; i < len(sg.hashes) && i < len(wantHashes); i++ {
 			vrt.Assert("C01.records-reach-the-grader-in-chain-order", string(sg.hashes[i]) == string(wantHashes[i]))
 		}
+		// ---- the next block, graded by the SAME daemon right away (as in a catch-up replay): the
+		// ledger has moved - H1 holds nothing any more, H2 does. Who is a top holder is a fact of
+		// the ledger as of this block, not of what the process saw a moment ago.
+		tx1, _ := db.Begin()
+		vrtSetBalance(tx1, H1, fat2.PTickerPEG, 0)
+		vrtSetBalance(tx1, H2, fat2.PTickerPEG, 5)
+		if err := tx1.Commit(); err != nil {
+			panic(err)
+		}
+		sg.added, sg.hashes = nil, nil
+		eb.Height = height + 1
+		_, err = d.GradeS(ctx, eb)
+		vrt.Assert("C11.staking-grading-glue-succeeds", err == nil)
+		want2 := 0
+		for i := 0; i < n; i++ {
+			if nIDs[i] >= 2 && declared[i] == 1 {
+				want2++
+			}
+		}
+		vrt.Assert("C11.only-top-holder-records-are-graded", len(sg.added) == want2)
+		vrt.Assert("C01.top-holder-filter-follows-the-ledger-not-the-process-history", len(sg.added) == want2)
+		for _, ex := range sg.added {
+			vrt.Assert("C11.only-top-holder-records-are-graded", len(ex) >= 2 && string(ex[1]) == string(H2[:]))
+			vrt.Assert("C01.top-holder-filter-follows-the-ledger-not-the-process-history", len(ex) >= 2 && string(ex[1]) == string(H2[:]))
+		}
 	} else {
 		vrt.Cover("mining")
 		_, err := d.Grade(ctx, eb)
